@@ -148,6 +148,7 @@ func stakingAlphabet() []Choice {
 		evB("burn(k2,0.5)", chain.Event{Kind: "burn", Who: 2, Sev: "0.5"}),
 		evB("award(k3,100)", chain.Event{Kind: "award", Who: 3, Amount: 100}),
 		evB("award(k2,7)", chain.Event{Kind: "award", Who: 2, Amount: 7}),
+		evB("award(k0 validator,9)", chain.Event{Kind: "award", Who: 0, Amount: 9}),
 		{Label: "prop=k1", Block: chain.Block{Proposer: 2}},
 	}
 }
@@ -264,6 +265,8 @@ func rewardAlphabet() []Choice {
 		// recipients whose address is not 20 bytes long (19 and 23 bytes; two 23/24-byte addresses that
 		// share their first 20 bytes)
 		evB("award(19-byte address,7)", chain.Event{Kind: "award", Who: 2000 + 3, Amount: 7}),
+		evB("award(address starting with 0x51,13)", chain.Event{Kind: "award", Who: 8000 + 3, Amount: 13}),
+		multiB("[award(address starting with 0x51 0x51,3),award(k3,4)]", chain.Event{Kind: "award", Who: 9000 + 3, Amount: 3}, chain.Event{Kind: "award", Who: 3, Amount: 4}),
 		multiB("[award(23-byte,7),award(24-byte same first 20,11)]", chain.Event{Kind: "award", Who: 6000 + 3, Amount: 7}, chain.Event{Kind: "award", Who: 7000 + 3, Amount: 11}),
 		multiB("[award(k3,5),award(23-byte extension of k3,9)]", chain.Event{Kind: "award", Who: 3, Amount: 5}, chain.Event{Kind: "award", Who: 6000 + 3, Amount: 9}),
 	}
@@ -348,6 +351,10 @@ func jailAlphabet() []Choice {
 		{Label: "dt=3s", Block: chain.Block{DT: 3 * time.Second}},
 		{Label: "dt=2s", Block: chain.Block{DT: 2 * time.Second}},
 		txB("change(MaxValidators=1)", chain.TxSpec{Msg: "change_param", From: 4, Key: "pos/MaxValidators", Val: `"1"`}),
+		// block times with a fractional part (jailed-until is compared exactly, not by the second)
+		{Label: "dt=1.5s", Block: chain.Block{DT: 1500 * time.Millisecond}},
+		{Label: "miss(k0)+dt=1.5s", Block: chain.Block{Missed: []int{0}, DT: 1500 * time.Millisecond}},
+		Choice{Label: "dt=1.5s unjail(k0)", Block: chain.Block{DT: 1500 * time.Millisecond, Events: []chain.Event{txE(chain.TxSpec{Msg: "unjail", From: 0})}}},
 		// parameters changed by governance while a validator sits in jail: jailed-until is a stored
 		// time (a new jail duration does not move it); the minimum stake is the current one
 		txB("change(DowntimeJailDuration=10s)", chain.TxSpec{Msg: "change_param", From: 4, Key: "pos/DowntimeJailDuration", Val: mj(10 * time.Second)}),
@@ -415,6 +422,8 @@ func statePreludes() map[string][]chain.Block {
 		"k0-unstaking":        {{Events: []chain.Event{txE(chain.TxSpec{Msg: "unstake", From: 0})}}},
 		"k0-tombstoned":       {{}, ev0},
 		"k0-unstaking-jailed": {{Events: []chain.Event{txE(chain.TxSpec{Msg: "unstake", From: 0})}}, {Missed: []int{0}}, {Missed: []int{0}}},
+		// k0 missed blocks, unstaked completely and was removed (its signing info stays behind)
+		"k0-removed-with-misses": {{Missed: []int{0}}, {Events: []chain.Event{txE(chain.TxSpec{Msg: "unstake", From: 0})}}, {Missed: []int{0}, DT: 2 * time.Second}, {DT: 2 * time.Second}},
 		// k0's power has changed once while it was in the set (2 -> 1)
 		"k0-slashed-half": {{Events: []chain.Event{{Kind: "burn", Who: 0, Sev: "0.5"}}}, {}},
 		"k2-joined-k0-jailed": {{Events: []chain.Event{txE(chain.TxSpec{Msg: "stake", From: 2, Amount: 2 * min})}}, {Missed: []int{0}}, {Missed: []int{0}}},
@@ -537,6 +546,7 @@ func posScenarios(id, tier string) []Scenario {
 		scs = append(scs, Scenario{Name: "interleaved-W=3", Cfg: windowCfg(3, 1, 2, 2*min), Alphabet: inter, K: k, D: d, Tail: 1})
 		kf, df := kd(2, 4, 4, 5)
 		scs = fromStates(scs, bigStake(), inter, kf, df, "k0-jailed", "k0-unstaking", "k2-joined-k0-jailed")
+		scs = fromStates(scs, windowCfg(3, 1, 2, 2*min), inter, kf, df, "k0-removed-with-misses")
 		// a window of more than 255 blocks (the ring index no longer fits one byte): k0 misses the
 		// first 300 blocks of a 300-block window with 200 required signatures (no punishment inside the
 		// first window), then the alphabet decides what happens around the first jailing and after it
